@@ -306,3 +306,35 @@ def inverted_dates(rng: random.Random, asset: str = "AAA", kinds: Sequence[str] 
     b.dispose(later, "0.5", 300, ex=b.rows[0]["ex"])
     b.acquire(later + timedelta(days=3), 1, 310)
     return b.done(rng, shuffle=rng.random() < 0.5), {"boundary": boundary.date().isoformat(), "inverted_kinds": used}
+
+
+def lot_after_cut_needed(rng: random.Random) -> Tuple[Dict[str, Any], str]:
+    """A lot whose own date is after a day boundary B (written in an eastern offset) but whose instant precedes a disposal
+    dated on B (western offset) that needs it: with to-date B the disposal is inside the window, the lot is not. Matching
+    always covers all history, so the run must succeed with and without the to-date. Returns (history, to-date)."""
+    b = HB()
+    year = rng.randint(2016, 2022)
+    boundary = datetime(year, 12, 31, tzinfo=timezone.utc) if rng.random() < 0.5 else datetime(year, rng.randint(2, 11), rng.randint(2, 27), tzinfo=timezone.utc)
+    midnight = boundary + timedelta(days=1)
+    t = midnight - timedelta(days=rng.randint(100, 400))
+    held = Decimal(0)
+    for _ in range(rng.randint(1, 3)):
+        amount = Decimal(rng.choice((1, 2, 5)))
+        b.acquire(t, amount, rng.randint(50, 500), ttype=rng.choice(("BUY", "INTEREST")))
+        held += amount
+        t += timedelta(days=rng.randint(3, 30))
+    off_e = rng.choice([o for o in OFFSETS if o >= 330])
+    off_w = rng.choice([o for o in OFFSETS if o <= -480])
+    first = midnight - timedelta(minutes=off_e) + timedelta(minutes=rng.randint(1, 90))
+    late = Decimal(rng.choice((1, 3, 10)))
+    b.acquire(first, late, rng.randint(50, 500), offset=off_e, ttype=rng.choice(("BUY", "MINING")))
+    held += late
+    second = first + timedelta(minutes=rng.randint(20, 200))
+    if second.astimezone(timezone(timedelta(minutes=off_w))).date() > boundary.date():
+        second = first + timedelta(minutes=5)
+    # needs the late lot: everything, or everything but a crumb
+    amount = held if rng.random() < 0.6 else held - Decimal("0.5")
+    b.dispose(second, amount, rng.randint(50, 500), offset=off_w, ttype=rng.choice(("SELL", "GIFT", "LOST")))
+    if rng.random() < 0.5:
+        b.acquire(second + timedelta(days=rng.randint(2, 50)), 1, 200)
+    return b.done(rng, shuffle=rng.random() < 0.5), boundary.date().isoformat()
